@@ -17,7 +17,7 @@ func init() {
 
 // Fields that are deliberately not printed (frozen, one reason each).
 var r131Unprinted = map[string]string{
-	"ColName.Metadata":  "interface{} scratch slot for analysers (vitess), never set by the parser; carries no statement text",
+	"ColName.Metadata":   "interface{} scratch slot for analysers (vitess), never set by the parser; carries no statement text",
 	"TableIdent.lowered": "memoised lower-case form of v, derived data (v itself is printed)",
 	"ColIdent.lowered":   "memoised lower-case form of val, derived data",
 	"ColIdent.at":        "memoised position of '@' prefix handling; derived data",
@@ -164,11 +164,11 @@ func ruleR132(p *Program, r *Report, a *sqlAST) {
 // ruleR133: stores into sqlparser AST fields from outside sqlparser.
 func ruleR133(p *Program, r *Report, a *sqlAST) {
 	allowed := map[string]string{
-		"SQLVal.Val":              "value substitution (protected value / hash / token replaces the literal bytes)",
-		"SQLVal.Type":             "literal kind follows the substituted value's encoding",
-		"ComparisonExpr.Left":     "search rewrite col -> substr(col,1,N)",
-		"ComparisonExpr.Right":    "search rewrite value -> hash / substr(col)",
-		"ComparisonExpr.Operator": "search rewrite LIKE -> = (documented)",
+		"SQLVal.Val":                     "value substitution (protected value / hash / token replaces the literal bytes)",
+		"SQLVal.Type":                    "literal kind follows the substituted value's encoding",
+		"ComparisonExpr.Left":            "search rewrite col -> substr(col,1,N)",
+		"ComparisonExpr.Right":           "search rewrite value -> hash / substr(col)",
+		"ComparisonExpr.Operator":        "search rewrite LIKE -> = (documented)",
 		"Prepare.PreparedStatementQuery": "MySQL PREPARE name FROM '<stmt>': the inner statement is replaced by its own rewritten form (the same substitution applied recursively)",
 	}
 	astStructs := map[*types.Struct]*types.TypeName{}
